@@ -157,4 +157,24 @@ def payloadCheck (t : Tx) : Bool := decide t.payloadHashes.Nodup
     block's withdrawals are refused -/
 def blockCheck (txs : List Tx) : Bool := decide (txs.flatMap (·.payloadHashes)).Nodup
 
+/-! ### the Tx3 index along a history of connected / disconnected blocks -/
+
+/-- connecting a block: the save processor of every withdrawal records *all* its hashes -/
+def saveBlock (wd : List Nat) (txs : List Tx) : List Nat := txs.foldl (fun wd t => recorded t ++ wd) wd
+
+/-- disconnecting it: the rollback processors delete them -/
+def rollbackBlock (wd : List Nat) (txs : List Tx) : List Nat :=
+  txs.foldl (fun wd t => wd.filter (fun x => !(recorded t).contains x)) wd
+
+inductive HStep
+  | save (txs : List Tx)
+  | rollback
+
+/-- (index, stack of connected blocks) after a history; rolling back with nothing connected is a no-op -/
+def runHist : List Nat × List (List Tx) → List HStep → List Nat × List (List Tx)
+  | st, [] => st
+  | (wd, stack), .save txs :: rest => runHist (saveBlock wd txs, txs :: stack) rest
+  | (wd, []), .rollback :: rest => runHist (wd, []) rest
+  | (wd, b :: stack), .rollback :: rest => runHist (rollbackBlock wd b, stack) rest
+
 end ElaVerif.Withdraw
